@@ -350,3 +350,9 @@ func (p *Program) MethodOf(T types.Type, name string) *ssa.Function {
 	}
 	return nil
 }
+
+// InModuleType: a named type declared in the analysed module.
+func InModuleType(t types.Type) bool {
+	n, ok := t.(*types.Named)
+	return ok && n.Obj().Pkg() != nil && strings.HasPrefix(n.Obj().Pkg().Path(), modPath)
+}
